@@ -1594,7 +1594,7 @@ def cases(tier, seed, flavour):
     for (m, n) in SHAPES:
         for tc in 'dz':
             for bi, blk in enumerate(chunks(P3 if th else P2, 8)):
-                if red and bi % 2:
+                if red and bi % 4:
                     continue
                 for p in blk:
                     yield {'skip_empty1': san, 'p': 'index', 'A': [m, n, tc, p], 'level': 'tiny', 'vks': list(VK_QUICK), 'get': True}
@@ -1606,11 +1606,12 @@ def cases(tier, seed, flavour):
     for d in sel:
         for k in 'islm':
             yield {'skip_empty1': san, 'p': 'index1', 'A': d, 'kind': k, 'level': 'full', 'vks': list(VK_ALL)}
+        rl = 'small' if red else 'mid'
         for rk in 'islm':
             for ck in 'islm':
-                yield {'skip_empty1': san, 'p': 'index2', 'A': d, 'rk': rk, 'ck': ck, 'rl': 'mid', 'cl': 'mid', 'vks': [], 'get': True}
+                yield {'skip_empty1': san, 'p': 'index2', 'A': d, 'rk': rk, 'ck': ck, 'rl': rl, 'cl': 'mid', 'vks': [], 'get': True}
                 for vk in (VK_ALL if th else VK_MID):
-                    yield {'skip_empty1': san, 'p': 'index2', 'A': d, 'rk': rk, 'ck': ck, 'rl': 'mid', 'cl': 'mid', 'vks': [vk], 'get': False}
+                    yield {'skip_empty1': san, 'p': 'index2', 'A': d, 'rk': rk, 'ck': ck, 'rl': rl, 'cl': 'mid', 'vks': [vk], 'get': False}
         for lk in 'lm':
             for ok in 'islm':
                 for vks, get in (([], True), (['num'], False), (['dfit'], False), (['sfit'], False)):
